@@ -794,6 +794,11 @@ func unpackDataAplPrefix(msg []byte, off int) (APLPrefix, int, error) {
 		IP:   ip,
 		Mask: net.CIDRMask(int(prefix), 8*len(ip)),
 	}
+	// Bits beyond the prefix are padding and must be zero: neither the packer
+	// nor the zone parser can represent them.
+	if !ipnet.IP.Equal(ipnet.IP.Mask(ipnet.Mask)) {
+		return APLPrefix{}, len(msg), &Error{err: "extra APL address bits"}
+	}
 
 	return APLPrefix{
 		Negation: (nlen & 0x80) != 0,
